@@ -12,5 +12,6 @@ CHECKS = {
     "C09": compiledchecks.c09,
     "C12": smallchecks.c12,
     "C13": compiledchecks.c13,
+    "C14": smallchecks.c14,
     "C16": smallchecks.c16,
 }
